@@ -1414,6 +1414,22 @@ func fixed2(thorough bool) []fixedProg {
 			let("ap2", fn(ps(name, "x"), sif(lit(true), ret(call(name, v("x")))), ret(lit("no")))), emit(call("ap2", v("g"), lit("w"))))
 	}
 
+	// the same names reached from two, three and four calls deep, through a function parameter from a nested call, and
+	// by a recursion: a template's function is found by its name from whatever depth
+	for _, name := range []string{"len", "raw", "capitalize", "truncate", "upcase", "range", "partial", "debug", "id"} {
+		add("helper-namesake-deep", let(name, fn(ps("x"), ret(bin("+", lit("mine:"), v("x"))))),
+			let("viaf", fn(ps("y"), ret(call(name, v("y"))))), let("via2", fn(ps("z"), ret(call("viaf", v("z"))))), let("via3", fn(ps("w"), ret(call("via2", v("w"))))),
+			emit(call("via3", lit("u"))), T("|"), emit(call("via2", lit("t"))), T("|"), emit(call("viaf", lit("s"))), T("|"), emit(call(name, lit("r"))))
+		add("helper-namesake-deep", let(name, fn(ps("x"), ret(bin("+", lit("mine:"), v("x"))))),
+			let("ap", fn(ps("h", "x"), ret(call("h", v("x"))))), let("outer", fn(ps("q"), ret(call("ap", v(name), v("q"))))), let("outer2", fn(ps("q"), ret(call("outer", v("q"))))),
+			emit(call("outer2", lit("k"))), T("|"), emit(call("outer", lit("j"))))
+		add("helper-namesake-deep", let(name, fn(ps("n"), sif(bin("==", v("n"), lit(0)), ret(lit("end"))), ret(bin("+", lit("."), call(name, bin("-", v("n"), lit(1))))))),
+			emit(call(name, lit(4))), T("|"), emit(call(name, lit(1))))
+		// a VARIABLE of that name read from nested calls
+		add("helper-namesake-deep", let(name, lit("value")), let("rd", fn(ps(), ret(v(name)))), let("rd2", fn(ps(), ret(call("rd")))), let("rd3", fn(ps(), ret(call("rd2")))),
+			emit(call("rd3")), T("|"), emit(call("rd2")), T("|"), emit(call("rd")))
+	}
+
 	// values of every kind pass through parameters and returns: arrays, hashes, floats, functions
 	add("value-kinds", echo, emit(idx(call("echo", arr(lit("p"), lit("q"))), v("i1"))), T("|"), emit(idx(call("echo", hash("k", v("b"))), lit("k"))), T("|"), emit(bin("+", call("echo", lit(1.5)), lit(1.0))), T("|"),
 		let("g", call("echo", v("echo"))), emit(call("g", lit("fn"))), T("|"), let("h", call("id", v("echo"))), emit(call("h", lit("go"))))
@@ -1538,7 +1554,7 @@ func memberCases() []litClassed {
 }
 
 const rule = "(E) 61 fixed programs: self-recursion whose parameters and lets are read after the inner call returned (sum, fibonacci, a let kept across the call, swapped arguments), swapped and rotated namesake arguments, nested calls, results used in + == < ! || and if tests, emission inside if/for blocks with content after it, aliasing, higher-order application, a function returning a function, recursion to depth 25, first-return-wins with dead code; each in the tag-per-statement and in the compact single-tag layout. " +
-	"(E2) ~135 boundary and state programs x 2 layouts: mutual recursion, self-application, a function local to a body, recursion in tail position with swapped / rotated / mutually dependent arguments, recursion to depth 60..900 (around 100 and 128; beyond 64 a refusal with an error is accepted), a return nested in 1..14 silent or emitting blocks, conditional lets that must be gone in the next call of the same function (directly, in blocks, in loops, through another function) and in the caller, functions of 0/1/2 parameters whose lets are named like variables of the caller, parameters shadowed by let and assigned, return nil / false / \"\" followed by more code, dead code that would fail or count if it were evaluated, calls that fail inside the body and are forgiven by if / == / ! / || with the caller's variables probed afterwards, one call site evaluated 1100 times (succeeding, and failing + forgiven), argument EXPRESSIONS (+, index of an array / hash literal, Go helper call, nested call, ! == && ||) that mention namesakes of the parameters, arguments counted by a tick helper (evaluated exactly once, read or not), values that print alike (1 / \"1\" / 1.0, nil / \"<nil>\", [1,2] / \"[1 2]\", true / \"true\", \"a b\",\"c\" / \"a\",\"b c\") passed to one function in one render, a caller variable rebound between two identical calls, functions and function-valued parameters named like built-in helpers (len raw capitalize partial debug) and like the Go helper of the check, arrays / hashes / floats / functions through parameters and returns, function literals as arguments, results as array elements, hash values, indexes, for-iterables, else-if conditions, operands of ! && || < * - ~=, assigned with =, as silent statements inside if / for blocks and inside other bodies. " +
+	"(E2) ~135 boundary and state programs x 2 layouts: mutual recursion, self-application, a function local to a body, recursion in tail position with swapped / rotated / mutually dependent arguments, recursion to depth 60..900 (around 100 and 128; beyond 64 a refusal with an error is accepted), a return nested in 1..14 silent or emitting blocks, conditional lets that must be gone in the next call of the same function (directly, in blocks, in loops, through another function) and in the caller, functions of 0/1/2 parameters whose lets are named like variables of the caller, parameters shadowed by let and assigned, return nil / false / \"\" followed by more code, dead code that would fail or count if it were evaluated, calls that fail inside the body and are forgiven by if / == / ! / || with the caller's variables probed afterwards, one call site evaluated 1100 times (succeeding, and failing + forgiven), argument EXPRESSIONS (+, index of an array / hash literal, Go helper call, nested call, ! == && ||) that mention namesakes of the parameters, arguments counted by a tick helper (evaluated exactly once, read or not), values that print alike (1 / \"1\" / 1.0, nil / \"<nil>\", [1,2] / \"[1 2]\", true / \"true\", \"a b\",\"c\" / \"a\",\"b c\") passed to one function in one render, a caller variable rebound between two identical calls, functions and function-valued parameters named like built-in helpers (len raw capitalize partial debug) and like the Go helper of the check, such functions and variables (also truncate upcase range) reached from two to four calls deep / through a parameter from a nested call / by a recursion, arrays / hashes / floats / functions through parameters and returns, function literals as arguments, results as array elements, hash values, indexes, for-iterables, else-if conditions, operands of ! && || < * - ~=, assigned with =, as silent statements inside if / for blocks and inside other bodies. " +
 	"(E3) programs whose called expression is not a name (13 by hand + 768 from a matrix): the result of a call, a function literal, an element of a hash or an array x 8 keys (strings with and without dots, float, int, variable) x 3 suffixes x 4 arguments x {emitted, applied to its own result and compared}; expectation argument + suffix. " +
 	"(R) generated functions of 0-4 parameters (families int/string/bool) whose bodies are if/else-if/else decision chains over the parameters nested to depth 3, every path ending in return <unique label>, with dead code after returns and local lets; argument tuples from literals (incl. nil), plain variables, caller variables NAMED LIKE THE FUNCTION'S OWN PARAMETERS, and calls of the SAME function in any argument position; 12 use sites (emit, let-then-emit, ==, if test, +, string concat, argument of a user function / Go helper, inside if / for blocks with text after, higher-order through a parameter). " +
 	"(R2) call SEQUENCES in one render: 2-3 functions of one signature and 2-5 calls, each direct, through a higher-order function handed any of them, through a parameter NAMED LIKE an already-called function or like a built-in helper, through two function parameters in one body, or through an alias rebound with let / = between calls, so that one called name resolves to different functions at different moments. " +
